@@ -58,6 +58,8 @@ def cases(draw: Any, max_n: int) -> dict:
         arg = draw(st.integers(lo, shortest))
     else:
         arg = hi + draw(st.integers(1, 3))
+    mat = dict(mat, layout=draw(st.sampled_from(
+        ["C", "C", "F", "T_view", "strided"])))
     return {"mat": mat, "tours": tours, "lb_mode": mode, "lb_arg": arg,
             "x_dtype": draw(st.sampled_from(["space", "int64"]))}
 
@@ -67,6 +69,16 @@ def build_instance(mat: dict, lb: int = 0, name: str | None = None,
     import numpy as np
     from moptipyapps.tsp.instance import Instance
     arr = np.array(mat["m"], dtype=np.dtype(mat["in_dtype"]))
+    # the memory layout the caller happens to use (same logical matrix)
+    layout = mat.get("layout", "C")
+    if layout == "F":
+        arr = np.asfortranarray(arr)
+    elif layout == "T_view":  # transposed view of the transposed data
+        arr = np.ascontiguousarray(arr.T).T
+    elif layout == "strided":  # every second row/column of a larger buffer
+        big = np.zeros((2 * arr.shape[0], 2 * arr.shape[1]), arr.dtype)
+        big[::2, ::2] = arr
+        arr = big[::2, ::2]
     if keep is not None:
         keep.append(arr)  # the caller's buffer, overwritten later
     return Instance(name or f"gen{mat['n']}", int(lb), arr)
@@ -91,6 +103,7 @@ def check_tour_length(ctx: Ctx, case: dict) -> None:
     sym = o.is_symmetric(m)
     mode, arg = case["lb_mode"], case["lb_arg"]
     labels = [f"cls={mat['cls']}", f"in={mat['in_dtype']}", f"lb={mode}",
+              f"layout={mat.get('layout', 'C')}",
               "symmetric" if sym else f"asymmetric({mat['kind']})",
               "n=2" if n == 2 else ("n=3..8" if n <= 8 else "n>=9")]
     try:
